@@ -119,9 +119,9 @@ type c07Index interface {
 
 func c07N() int {
 	if sym.Tier() > 0 {
-		return 3
+		return 4
 	}
-	return 2
+	return 3
 }
 
 func c07Build(idx c07Index) []c07Rec {
@@ -228,5 +228,115 @@ func VerifC07ARTScan() {
 func VerifC07ARTSeek() {
 	idx := NewART(1 << 20)
 	c07CheckSeek(idx, c07Build(idx), "art")
+	sym.Reached("end")
+}
+
+// ---- node growth: many children under one node ----
+//
+// 5 entries whose one-byte user keys are distinct concrete bytes (inserted in a
+// scrambled order; ART: the 5th child turns a Node4 into a Node16), then one
+// (thorough two) more entries and a probe with symbolic bytes. Node48/Node256
+// index their children through a 256-entry table by a symbolic byte, which the
+// solver does not get through within the budget: outside the claim.
+func c07Growth(idx c07Index, which string) {
+	k := 5
+	var spec []c07Rec
+	for i := 0; i < k; i++ {
+		b := byte((i*37 + 11) % 251) // distinct for i < 251, scrambled
+		key := kv.InternalKey(kv.CFDefault, []byte{b}, 2)
+		idx.Add(&kv.Entry{Key: key, Value: []byte{b}, Version: 2})
+		spec = c07Insert(spec, c07Rec{key: key, val: b})
+	}
+	nsym := 1
+	if sym.Tier() > 0 {
+		nsym = 2
+	}
+	for i := 0; i < nsym; i++ {
+		key := kv.InternalKey(kv.CFDefault, []byte{sym.U8("key_byte")}, uint64(sym.SymInt("key_version", 1, 3)))
+		v := sym.U8("payload")
+		idx.Add(&kv.Entry{Key: key, Value: []byte{v}, Version: kv.ParseTs(key)})
+		spec = c07Insert(spec, c07Rec{key: key, val: v})
+	}
+	probe := kv.InternalKey(kv.CFDefault, []byte{sym.U8("probe_byte")}, uint64(sym.SymInt("probe_version", 1, 3)))
+	want, found := c07Lookup(spec, probe)
+	got := idx.Search(probe)
+	if found {
+		sym.Assert(len(got.Value) == 1 && got.Value[0] == want, which+"-search-returns-the-first-entry-at-or-above-the-probe")
+	} else {
+		sym.Assert(len(got.Value) == 0, which+"-search-returns-the-first-entry-at-or-above-the-probe")
+	}
+	asc := sym.Int("ascending", 0, 1) == 1
+	it := idx.NewIterator(&Options{IsAsc: asc})
+	i := 0
+	for it.Rewind(); it.Valid(); it.Next() {
+		sym.Assert(i < len(spec), which+"-scan-yields-exactly-the-entries-in-order")
+		want := spec[i]
+		if !asc {
+			want = spec[len(spec)-1-i]
+		}
+		e := it.Item().Entry()
+		sym.Assert(sym.BytesEq(e.Key, want.key) && len(e.Value) == 1 && e.Value[0] == want.val, which+"-scan-yields-exactly-the-entries-in-order")
+		i++
+	}
+	sym.Assert(i == len(spec), which+"-scan-yields-exactly-the-entries-in-order")
+	_ = it.Close()
+}
+
+func VerifC07ARTGrowth() {
+	c07Growth(NewART(1<<20), "art")
+	sym.Reached("end")
+}
+func VerifC07SkiplistGrowth() {
+	c07Growth(NewSkiplist(1<<20), "skiplist")
+	sym.Reached("end")
+}
+
+// ---- concurrent inserts ----
+//
+// Two threads insert one entry each (symbolic keys; equal keys included), every
+// interleaving of their atomic steps within the preemption bound; afterwards
+// the index holds exactly the specification's entries (for one internal key
+// inserted twice: either value).
+func c07Concurrent(idx c07Index, which string) {
+	var base []c07Rec
+	// one entry is there already; one-byte user keys (no prefix-related pairs)
+	c07Key := func(tag string) []byte {
+		return kv.InternalKey(kv.CFDefault, []byte{sym.U8(tag + "_byte")}, uint64(sym.SymInt(tag+"_version", 1, 2)))
+	}
+	k0 := c07Key("key")
+	idx.Add(&kv.Entry{Key: k0, Value: []byte{0}, Version: kv.ParseTs(k0)})
+	base = c07Insert(base, c07Rec{key: k0, val: 0})
+	keys := [][]byte{c07Key("key"), c07Key("key")}
+	for t := 0; t < 2; t++ {
+		t := t
+		sym.Go(func() {
+			idx.Add(&kv.Entry{Key: keys[t], Value: []byte{byte(t + 1)}, Version: kv.ParseTs(keys[t])})
+		})
+	}
+	sym.Wait()
+	// specification: both orders of the two inserts give the same key set
+	spec := c07Insert(c07Insert(base, c07Rec{key: keys[0], val: 1}), c07Rec{key: keys[1], val: 2})
+	it := idx.NewIterator(&Options{IsAsc: true})
+	i := 0
+	for it.Rewind(); it.Valid(); it.Next() {
+		sym.Assert(i < len(spec), which+"-concurrent-inserts-all-present-in-order")
+		e := it.Item().Entry()
+		sym.Assert(sym.BytesEq(e.Key, spec[i].key) && len(e.Value) == 1, which+"-concurrent-inserts-all-present-in-order")
+		i++
+	}
+	sym.Assert(i == len(spec), which+"-concurrent-inserts-all-present-in-order")
+	_ = it.Close()
+	for t := 0; t < 2; t++ {
+		got := idx.Search(keys[t])
+		sym.Assert(len(got.Value) == 1, which+"-concurrent-inserts-all-present-in-order")
+	}
+}
+
+func VerifC07ARTConcurrent() {
+	c07Concurrent(NewART(1<<20), "art")
+	sym.Reached("end")
+}
+func VerifC07SkiplistConcurrent() {
+	c07Concurrent(NewSkiplist(1<<20), "skiplist")
 	sym.Reached("end")
 }
